@@ -1,4 +1,5 @@
 import MlModel.Lemmas.PrefetchStopInv
+import MlModel.Lemmas.PrefetchDead
 import MlModel.Lemmas.PrefetchReplay
 import MlModel.Properties.C15
 /-!
@@ -33,7 +34,7 @@ theorem C15_installed_has_producer (hreq : Requests progs) (h : Reachable (init 
   have hI := iinv_reachable hreq h
   rcases hI.gen k hg with h1 | ⟨tid, t, ht, hpc, hgk⟩
   · exact Or.inl h1
-  · exact Or.inr ⟨tid, t, ht, hpc, hgk, hI.lock tid t ht (by rw [hpc]; rfl), (hI.spawnG tid t ht hpc).2⟩
+  · exact Or.inr ⟨tid, t, ht, hpc, hgk, hI.lock tid t ht (by rw [hpc]; rfl), not_fail_of_gen (hI.spawnG tid t ht hpc).2⟩
 
 /-- **No orphan queue**: whenever the generator lock is free — in particular after ANY `init_generator` call has
 returned or raised — the queue `self._generator` points to has its prefetch thread, recorded in
@@ -59,8 +60,8 @@ theorem C15_failed_init_installs_nothing (hreq : Requests progs) (h : Reachable 
   obtain ⟨t', hk, -⟩ := step_eff ht hs
   cases hk with
   | plain hths hgen henq hlen _ _ _ => exact ⟨hgen, henq, hlen, by rw [hths]; simp⟩
-  | install _ _ _ _ _ _ _ _ hp => exact absurd hprog (hp e a)
-  | spawn _ _ _ _ _ h1 => exact absurd hprog ((hI.spawnG tid t ht h1).2 e a)
+  | install _ _ _ _ _ _ _ _ hp => exact absurd hprog (not_fail_of_gen hp e a)
+  | spawn _ _ _ _ _ h1 => exact absurd hprog (not_fail_of_gen (hI.spawnG tid t ht h1).2 e a)
 
 /-- **The generator lock is a lock**: a request inside the locked stop / the installation (`_stop_prefetch_locked`,
 `maybe_make`, `thread_start`, the release) is the owner of `_generator_lock`, and the owner is such a request. -/
@@ -141,6 +142,61 @@ theorem C15_one_prefetch_thread_per_queue (hreq : Requests progs) (h : Reachable
       c.sh.generator = some t.g) :=
   ⟨(uinv_reachable hreq h).uniq, (uinv_reachable hreq h).stopG⟩
 
+/-! ### Nothing stays blocked — what is proved for many concurrent requests
+
+FULL STATEMENT (C15_multi_no_deadlock, NOT proved): for every `Requests progs`, a reachable configuration without
+enabled step has every REQUEST thread at `done`, every prefetch thread of a replaced or stopped generator at
+`done`, the server thread at `done` (after a shutdown request) or parked (without one); only the prefetch thread of
+the newest generator may stay parked on a full queue nobody reads.
+
+Proved below (`C15_multi_dead_shape_partial`): the SERVER-LEVEL protocol never blocks anybody.  In such a
+configuration every thread that has not ended is
+* the idle server thread (parked, not notified, and NO shutdown has been requested: a request is never missed), or
+* blocked INSIDE an `IteratorQueue` operation — `get_batch` of a request, `maybe_stop` of a locked stop,
+  `enqueue_from_iterator` of a prefetch thread — whose next queue-level step is not enabled, or
+* in the join of a locked stop whose prefetch thread has not ended, or
+* waiting for the generator lock / `_states_lock` held by a thread of the two previous kinds;
+in particular `_shutdown_lock` and `_tx_stats_lock` are free and no request waits for a reply's way back.
+What remains for the full statement is queue-level: the no-lost-wake-up invariant `Queue.Live` (J1 J2 K1 K2) for the
+view of EVERY generator queue with several consumers that COME AND GO (a `next_batch` request leaves its queue at
+`bAcq`; `Queue.live_set_quiet` covers a consumer that calls again, not one that leaves while another consumer is
+parked — that needs a counting strengthening of J1: elements in the queue ≤ notified + woken consumers + pending
+`notify`), stoppers entering / leaving the view, and the final-state analysis (`Queue.dead_all_done` with stoppers).
+Until then "no request stays blocked" for several concurrent requests is decided by the scheduler on the real code
+and by exhaustive exploration (as before). -/
+
+/-- **The server-level protocol never blocks** (every schedule, any concurrent requests — healthy and failing
+`init_generator`, `next_batch`, `stop_prefetch`, `shutdown`, client loops): in a reachable configuration in which
+no thread is enabled, a thread that has not ended is the idle server thread (and then no shutdown was requested),
+is blocked inside an `IteratorQueue` operation, waits in a join for a prefetch thread that has not ended, or waits
+for the generator / states lock held by such a thread (`Prefetch.Blocked`). -/
+theorem C15_multi_dead_shape_partial (hreq : Requests progs) (h : Reachable (init p progs) c)
+    (hdead : enabled c = []) {tid : Queue.Tid} {t : Thread} (ht : c.ths[tid]? = some t) :
+    t.pc = .done ∨ Blocked c tid t :=
+  dead_shape (ginv_reachable hreq h) (iinv_reachable hreq h) (uinv_reachable hreq h) (lkinv_reachable h)
+    (stinv_reachable h) (enabled_nil hdead) tid t ht
+
+/-- **A shutdown request is never missed**: once `shutdown` has been requested, a server thread is never left
+parked in `run_until_shutdown` when nothing else can run. -/
+theorem C15_shutdown_not_missed (hreq : Requests progs) (h : Reachable (init p progs) c)
+    (hdead : enabled c = []) (hf : c.sh.shutdownRequested = true) {tid : Queue.Tid} {t : Thread}
+    (ht : c.ths[tid]? = some t) : t.pc ≠ .mnWake := by
+  intro hpc
+  rcases C15_multi_dead_shape_partial hreq h hdead ht with h1 | h1
+  · rw [hpc] at h1; cases h1
+  · cases h1 with
+    | idleMain _ _ hf' => rw [hf] at hf'; cases hf'
+    | inQueue h2 => rw [hpc] at h2; rcases h2 with h2 | h2 | h2 <;> cases h2
+    | inJoin h2 => rw [hpc] at h2; cases h2
+    | forGen h2 => rw [hpc] at h2; cases h2
+    | forStates h2 => rw [hpc] at h2; cases h2
+
+/-- **The server-level locks are locks** (every schedule, any concurrent requests): `_shutdown_lock` and
+`_tx_stats_lock` are owned by exactly the thread inside the corresponding region, a parked server thread is on a
+wait list of the shutdown condition, and a reply is on its way whenever a request is in `_return_pickled`. -/
+theorem C15_server_locks (h : Reachable (init p progs) c) : LkInv c ∧ StInv c :=
+  ⟨lkinv_reachable h, stinv_reachable h⟩
+
 /-! ### Non-vacuity (tests of the definitions) -/
 
 /-- a failing `init_generator` (the constructor raises) and a `next_batch` request: the failed call ends with the
@@ -184,5 +240,13 @@ example : ∃ c, Reachable (init 1 [.client ⟨[.val 7], 900⟩ 1]) c ∧ c.sh.g
     c.ths.map (·.pc) = [.mnWake, .done, .done] :=
   ⟨_, reachable_replay (init 1 [.client ⟨[.val 7], 900⟩ 1]) schedOk (by decide),
     by decide, by decide, by decide, by decide, by decide⟩
+
+/-- the hypotheses of `C15_multi_dead_shape_partial` are met, with two of its shapes: an `init_generator` of a
+generator longer than the prefetch buffer and nobody reading — no thread is enabled, the server thread is idle and
+the prefetch thread is parked inside `put` on the full queue (legitimately: it is the newest generator) -/
+example : ∃ c, Reachable (init 1 [.initIter ⟨[.val 7, .val 8, .val 9], 900⟩]) c ∧ enabled c = [] ∧
+    c.ths.map (·.pc) = [.mnWake, .done, .prod] ∧ c.ths.map (·.qt.pc) = [.done, .done, .pWake] :=
+  ⟨_, reachable_replay (init 1 [.initIter ⟨[.val 7, .val 8, .val 9], 900⟩])
+      (List.replicate 7 1 ++ List.replicate 18 2 ++ [0, 0, 0]) (by decide), by decide, by decide, by decide⟩
 
 end MlModel.C15
